@@ -159,7 +159,7 @@ func init() {
 }
 
 func c03Records(c *Ctx) {
-	n := c.N(5000, 200000)
+	n := c.N(20000, 1000000)
 	for i := 0; i < n; i++ {
 		c.Case(int64(i), func(k *K) {
 			r := k.Rand()
@@ -215,7 +215,7 @@ func genSamHeader(r *rand.Rand) string {
 }
 
 func c03Files(c *Ctx) {
-	n := c.N(500, 20000)
+	n := c.N(2000, 100000)
 	for i := 0; i < n; i++ {
 		c.Case(int64(i), func(k *K) {
 			r := k.Rand()
@@ -336,7 +336,7 @@ func checkFlagValue(k *K, f int) {
 
 // c03Long: records and header lines longer than the usual I/O buffers.
 func c03Long(c *Ctx) {
-	n := c.N(120, 3000)
+	n := c.N(150, 6000)
 	for i := 0; i < n; i++ {
 		c.Case(int64(i), func(k *K) {
 			r := k.Rand()
